@@ -146,7 +146,43 @@ def finish (s : St) : St :=
   (List.range s.vars.length).foldl (fun s i =>
     if (s.v i).ty = .initialised then { s.setV i fun x => { x with ty := .constant, idx := some s.variableIndex } with variableIndex := s.variableIndex + 1 } else s) s
 
-def analyse (s : St) : St := finish (loop (fuelFor s) s 1 false)
+/-- "confirm that equations that compute a variable-based constant are still of that type": an equation that reads
+    something which is not some kind of constant is requalified as algebraic; one pass in equation order -/
+def requalifyPass (s : St) : St × Bool :=
+  (List.range s.eqs.length).foldl (fun (acc : St × Bool) i =>
+    let s := acc.1
+    match s.eqs[i]? with
+    | some e =>
+      if e.ty = .varConstant then
+        match e.unknowns.head? with
+        | some u =>
+          if e.all.any (fun v => v ≠ u && (s.v v).ty ≠ .constant && (s.v v).ty ≠ .ctc && (s.v v).ty ≠ .cvc) then
+            ((s.setV u fun x => { x with ty := .algebraic }).setE i { e with ty := .algebraic }, true)
+          else acc
+        | none => acc
+      else acc
+    | none => acc) (s, false)
+
+/-- ... repeated until nothing is requalified (each productive pass turns at least one equation algebraic) -/
+def requalifyLoop : Nat → St → St
+  | 0, s => s
+  | fuel + 1, s => let (s', ch) := requalifyPass s; if ch then requalifyLoop fuel s' else s'
+
+def requalify (s : St) : St := requalifyLoop (s.eqs.length + 1) s
+
+/-- NLA systems with more equations than unknowns: their unknowns are overconstrained -/
+def nlaOverconstrained (s : St) : St :=
+  s.eqs.foldl (fun acc e =>
+    if e.ty = .nla then
+      let siblings := (s.eqs.filter fun o => o.ty = .nla && o.unknowns.any (e.unknowns.contains ·)).length - 1
+      if siblings + 1 > e.unknowns.length then e.unknowns.foldl (fun a v => a.setV v fun x => { x with ty := .overconstrained }) acc else acc
+    else acc) s
+
+def valid (s : St) : Bool := !(s.vars.any fun v => v.ty = .unknown || v.ty = .shouldBeState || v.ty = .overconstrained)
+
+def analyse (s : St) : St :=
+  let s := finish (loop (fuelFor s) s 1 false)
+  if valid s then nlaOverconstrained (requalify s) else s
 
 inductive MT | ode | algebraic | nla | dae | underconstrained | overconstrained | unsuitably
   deriving DecidableEq, Repr
@@ -159,5 +195,16 @@ def modelType (s : St) : MT :=
     let hasOde := s.vars.any fun v => v.ty = .state
     let hasNla := s.eqs.any fun e => e.ty = .nla
     if hasOde then (if hasNla then .dae else .ode) else (if hasNla then .nla else .algebraic)
+
+/-- the indices of the `AnalyserVariable`s: classes in creation order, states and the other variables counted separately,
+    the variable of integration skipped -/
+def finalIndices (vs : List V) : List (Option Nat) :=
+  (vs.foldl (fun (acc : List (Option Nat) × Nat × Nat) v =>
+    let (out, si, vi) := acc
+    if v.ext then (out ++ [some vi], si, vi + 1)
+    else match v.ty with
+      | .state => (out ++ [some si], si + 1, vi)
+      | .constant | .ctc | .cvc | .algebraic | .initAlg => (out ++ [some vi], si, vi + 1)
+      | _ => (out ++ [none], si, vi)) ([], 0, 0)).1
 
 end Cellml.Analyser
